@@ -598,6 +598,16 @@ static int do_replay(Engine &engine, const std::string &path) {
 }
 
 int check_main(int argc, char **argv, Engine &engine) {
+  // glibc's thread cache hands freed chunks back without applying M_PERTURB,
+  // so a field that a restart constructor forgets to set silently inherits
+  // the value of the previous object of the same size. Switch the cache off
+  // (tunables are read at process start, hence the re-exec) so that the
+  // hostile fill of scrub_memory() reaches every allocation.
+  if (!getenv("GLIBC_TUNABLES") && !getenv("VERIF_NO_REEXEC")) {
+    setenv("GLIBC_TUNABLES", "glibc.malloc.tcache_count=0", 1);
+    setenv("VERIF_NO_REEXEC", "1", 1);
+    execv("/proc/self/exe", argv);
+  }
   setvbuf(stdout, nullptr, _IOLBF, 0);
   std::string mode = argc > 1 ? argv[1] : "quick";
   if (mode == "--replay") {
